@@ -350,6 +350,8 @@ def runSig (op : String) (args : List Val) : Out :=
   match op, args with
   | "b64enc", [.bytes b] => .ok (.bytes (b64encode b))
   | "b64dec", [.bytes s] => vOptBytes (b64decode s)
+  | "ed_new", [.bytes tape] => match edGenerate tape with
+    | some (k, rest) => .ok (.list [.bytes k, .nat (tape.length - rest.length)]) | none => .panic
   | "ed_pk", [.bytes seed] => if seed.length = 32 then .ok (.bytes (edPublicKey seed)) else .badOp op
   | "ed_sign", [.bytes seed, .bytes msg] =>
     if seed.length = 32 then .ok (.bytes (edSign seed msg)) else .badOp op
